@@ -63,6 +63,42 @@ pub fn chunky_tileset(rng: &mut Rng) -> TileSet {
 	TileSet { format: TileFormat::BIN, comp: Comp::None, tiles, tilejson: "{\"tilejson\":\"3.0.0\"}".into(), shape: "chunky 4x4 at z10 (columns >= 1 hold 45 kB tiles)".into(), really_compressed: false }
 }
 
+/// set by a monitor that wants the next versatiles source to hold more than 64 MiB of tile data in one block
+pub static FORCE_HUGE: std::sync::atomic::AtomicBool = std::sync::atomic::AtomicBool::new(false);
+
+/// one block whose tile data exceeds the versatiles reader's 64 MiB chunk limit: either nine tiles of
+/// 9 MiB, or a single tile larger than the limit between two small ones
+pub fn huge_tileset(rng: &mut Rng) -> TileSet {
+	let mut tiles = BTreeMap::new();
+	let z = 9u8;
+	let (x0, y0) = (100u32, 200u32);
+	let single = rng.chance(0.4);
+	let fill = |x: u32, y: u32, size: usize| -> Vec<u8> {
+		let mut v = format!("T:{z}/{x}/{y};").into_bytes();
+		let mut n: u64 = (x as u64) << 40 | (y as u64) << 20;
+		v.reserve(size);
+		while v.len() < size {
+			v.extend_from_slice(&n.to_le_bytes());
+			n = n.wrapping_mul(6364136223846793005).wrapping_add(1442695040888963407);
+		}
+		v
+	};
+	if single {
+		tiles.insert((z, x0, y0), fill(x0, y0, 1 << 20));
+		tiles.insert((z, x0 + 1, y0), fill(x0 + 1, y0, 65 << 20));
+		tiles.insert((z, x0 + 2, y0), fill(x0 + 2, y0, 1 << 20));
+		tiles.insert((z, x0, y0 + 1), fill(x0, y0 + 1, 100));
+	} else {
+		for y in 0..3u32 {
+			for x in 0..3u32 {
+				tiles.insert((z, x0 + x, y0 + y), fill(x0 + x, y0 + y, 9 << 20));
+			}
+		}
+	}
+	let shape = if single { "huge: one 65 MiB tile between small ones at z9" } else { "huge: 3x3 tiles of 9 MiB at z9 (81 MiB in one block)" };
+	TileSet { format: TileFormat::BIN, comp: Comp::None, tiles, tilejson: "{\"tilejson\":\"3.0.0\"}".into(), shape: shape.into(), really_compressed: false }
+}
+
 /// a level that holds nothing but one Hilbert-aligned square of identical content: with run
 /// lengths switched on it becomes a single PMTiles run whose middle tiles lie outside the
 /// bounding box of its first and last tile
@@ -178,7 +214,8 @@ pub fn build_source(rng: &mut Rng, kind: usize, dir: &Path, max_tiles: usize) ->
 	match kind {
 		0..=9 => {
 			let target = TARGETS[kind % 5];
-			let mut ts = if target == "versatiles" && rng.chance(0.2) { chunky_tileset(rng) } else { gen_for(rng, target, max_tiles, false, false) };
+			let huge = target == "versatiles" && FORCE_HUGE.swap(false, std::sync::atomic::Ordering::SeqCst);
+			let mut ts = if huge { huge_tileset(rng) } else if target == "versatiles" && rng.chance(0.2) { chunky_tileset(rng) } else { gen_for(rng, target, max_tiles, false, false) };
 			if kind == 6 && rng.chance(0.4) {
 				add_aligned_run(&mut ts, rng);
 			}
